@@ -14,11 +14,16 @@
       the interleaving theorem, whose oracles include arbitrary injected faults);
       confinement (C16), descriptor balance (C20) and the write discipline (C01)
       hold for arbitrary results as well.
+    - never panics except in the documented failed-flush case: lookups, touches
+      and the temp-file API never return [Panic] ([C18_no_panic]); a path-based
+      set / put does so only after an fsync answered with an error
+      ([C18_writers_panic_only_after_failed_flush]); the planner's assertion is
+      unreachable (C08).
     What "reported" requires beyond this (every non-absent error surfaces, the
     documented exceptions aside) is established by the exhaustive single-fault
     enumeration against this model (vlib/c18.py). *)
 From Coq Require Import List NArith ZArith String Bool Arith.
-From Kismet Require Import Pure.Hash FS.Fs FS.Prog Spec.Wp Ops.Ops Conc.Pool Conc.Effect Conc.Immut Proofs.NeverMasked Seq.Plain Proofs.KvSeq.
+From Kismet Require Import Pure.Hash FS.Fs FS.Prog Spec.Wp Ops.Ops Conc.Pool Conc.Effect Conc.Immut Proofs.NeverMasked Seq.Plain Proofs.KvSeq Proofs.NoPanic.
 Import ListNotations.
 
 Theorem C18_set_success_means_published : forall cfg k v w o,
@@ -47,6 +52,47 @@ Proof.
   pose proof (calm_run_keeps_data _ _ (Spec.Calm.cm_cache_set cfg k v) w o i0 D HD Hi) as H2.
   destruct (run (cache_set cfg k v) w o) as [[[r w'] o'] tr]. intros Hok. split; [exact (H1 Hok)|exact H2].
 Qed.
+
+(** Never a panic, for arbitrary results: lookups and touches through any stack
+    without checker, set_temp_file / put_temp_file through plain or sharded write
+    caches, with whatever maintenance runs. *)
+Theorem C18_no_panic : forall cfg k (which : bool) fd p,
+  (s_checker cfg = None -> npn (cache_get cfg k)) /\ npn (cache_touch cfg k) /\ npn (cache_write_temp which cfg k fd p).
+Proof. intros. split; [apply npn_cache_get|split; [apply npn_cache_touch|apply npn_cache_write_temp]]. Qed.
+
+Theorem C18_no_panic_on_every_run : forall cfg k (which : bool) fd p w o,
+  let '(r, _, _, _) := run (cache_write_temp which cfg k fd p) w o in r <> Panic.
+Proof. intros cfg k which fd p w o. exact (no_panic_run _ (npn_cache_write_temp which cfg k fd p) w o). Qed.
+
+(** The documented exception: a path-based set / put panics only after an fsync
+    was answered with an error (auto_sync, flush of the caller's file). *)
+Theorem C18_writers_panic_only_after_failed_flush : forall (which : bool) cfg k v w o,
+  let '(r, _, _, tr) := run (if which then cache_set cfg k v else cache_put cfg k v) w o in
+  r = Panic -> mon_run np_step false tr = Some true.
+Proof. intros which cfg k v w o. exact (write_panic_run which cfg k v w o). Qed.
+
+Theorem C18_panic_monitor_meaning : forall fd e c r,
+  np_step false (EvCall (CFsync fd) (RErr e)) = Some true /\
+  (match c with CFsync _ => False | _ => True end -> np_step false (EvCall c r) = Some false).
+Proof. intros fd e c r. split; [reflexivity|]. destruct c; intros H; try reflexivity. destruct H. Qed.
+
+(** Non-vacuity: auto_sync on, the flush of the caller's file answers EIO: the set
+    panics and the monitor has seen the failed fsync; the same fault at the open
+    before it is an ordinary error; without fault the set succeeds. *)
+Example C18_panic_example :
+  let mk (f : fs) (p : path) (c : N) :=
+    let '(f1, i) := alloc_inode f (mkInode false [c] 292 100%Z 50%Z 1 true) in
+    set_names f1 ((p, i) :: names f1) in
+  let '(f0, d) := alloc_inode empty_fs (mkInode true [] 493 0%Z 0%Z 2 true) in
+  let f0 := set_names f0 ((["w"%string], d) :: names f0) in
+  let f := mk f0 ["v"%string] 66%N in
+  let cfg := mkStack 0 (Some (FPlain ["w"%string] 300)) [] None true ["systmp"%string] in
+  let go flt :=
+    let o := mkOracle [1000; 1001; 1002]%Z [18446744073709551615%N] [] [] [] flt 0 1%Z Relatime in
+    let '(r, _, _, tr) := run (cache_set cfg (mkKey "a"%string 1 2) ["v"%string]) (mkWorld f 0 []) o in
+    (match r with Ok _ => 0 | Err _ => 1 | Panic => 2 end, mon_run np_step false tr)%nat in
+  go None = (0%nat, Some false) /\ go (Some (1%nat, EIO)) = (2%nat, Some true) /\ go (Some (0%nat, EIO)) = (1%nat, Some false).
+Proof. vm_compute. repeat split. Qed.
 
 (** For arbitrary results, not only those a run of the model produces. *)
 Theorem C18_never_masked_all_responses : forall cfg k v, pubs (cache_set cfg k v) /\ pubs (cache_put cfg k v).
